@@ -57,7 +57,14 @@ class Driver:
         _mm.random = Rand(inp.get("mid0", 0)); _tm.random = Rand(inp.get("token0", 0))
         self.ctx, self.tman, self.mman, mi = simnet.make_stack(loop)
         seen = self.seen = set()
+        refusing = self.refusing = set()
+        mman = self.mman
         def send(m):
+            # a transport that refuses the datagram synchronously: udp6's sendmsg raises OSError, the selector transport calls
+            # error_received, which calls MessageManager.dispatch_error(exc, remote) -- all from inside send(); nothing on the wire
+            if m.remote.name in refusing:
+                import errno
+                mman.dispatch_error(OSError(errno.ENETUNREACH, "Network is unreachable"), m.remote); return
             raw = m.encode(); rname = m.remote.name
             from aiocoap import Message
             d = Message.decode(raw)
@@ -132,6 +139,8 @@ class Driver:
         elif k == "adv":
             d = ev[1]; nd = loop.next_due()
             if d >= 0 and (nd is None or nd > loop.now_us() + d): loop.advance(d)
+        elif k == "refuse":
+            (self.refusing.add if ev[2] else self.refusing.discard)(ev[1])
         elif k == "cancel":
             req = self.requests.get(ev[1])
             if req is not None:
@@ -170,7 +179,7 @@ class Sim:
     which token belongs to which request).  It never judges anything."""
     def __init__(s, mid0, token0, rand):
         s.mid = mid0; s.tok = token0; s.rand = list(rand); s.now = 0; s.seq = 0
-        s.ex = {}; s.q = {}; s.out = {}; s.mids = {}; s.fires_needed = 0
+        s.ex = {}; s.q = {}; s.out = {}; s.mids = {}; s.fires_needed = 0; s.refusing = set()
     def open(s, r, sub, mid, maxre):
         t = s.rand.pop(0) if s.rand else 2000000
         s.ex[r] = dict(mid=mid, due=s.now + t, seq=s.seq, timeout=t, counter=0, maxre=maxre, sub=sub); s.seq += 1
@@ -181,12 +190,15 @@ class Sim:
         mid = s.mid; s.mid = (mid + 1) & 0xFFFF
         s.mids.setdefault(r, []).append(mid)
         if resolved(mt) == CON:
-            s.fires_needed += maxre + 1
+            s.fires_needed += maxre + 2
             if r in s.ex: s.q[r].append(((kind, n), mid, maxre))
+            elif r in s.refusing: s.fail(r)
             else: s.open(r, (kind, n), mid, maxre)
+        elif r in s.refusing: s.fail(r)
     def close_ok(s, r):
         del s.ex[r]
         if s.q[r]:
+            if r in s.refusing: s.fail(r); return
             sub, mid, maxre = s.q[r].pop(0); s.open(r, sub, mid, maxre)
         else: del s.q[r]
     def fail(s, r):
@@ -220,6 +232,7 @@ class Sim:
         elif k == "fire": s.fire()
         elif k == "adv": s.advance(ev[1])
         elif k == "cancel": s.out.pop(ev[1], None)
+        elif k == "refuse": (s.refusing.add if ev[2] else s.refusing.discard)(ev[1])
 
 
 def concretize(sym, sim, ids, rng=None):
@@ -245,21 +258,24 @@ class C14(fw.Property):
     id = "C14"
     coq_props = "Props/C14.v"
     gen_jobs = ["c14_message_id"]
-    model_imports = ["Verif.Model.C14"]
+    model_imports = ["Verif.Model.C14", "Verif.Model.C14refuse"]
     quick_budget = 300
     thorough_budget = 9000
     design_ref = "DESIGN.md section 15 (C14)"
     technique = ("Coq invariant + refinement proofs (FIFO queue per remote, release/failure trichotomy, frame) over an executable model of the "
                  "MessageManager NSTART slice, induction over all event lists; differential correspondence against the real "
                  "Context/TokenManager/MessageManager under a virtual-time loop; independent wire-level oracle")
-    level_text = ("Theorems (closed under the global context) over Model/C14.v for every event list: at most one exchange per remote and "
-                  "backlog key iff exchange; submission order = (first transmissions and drops) ++ queue per remote; a held-back message is released exactly in the "
-                  "step that ends the exchange ahead by ACK/RST, dropped (with its request failed) exactly on give-up/transport error, otherwise "
-                  "stays; NON and CON-to-idle-remote go out in the submission step; events of one remote leave the others untouched; no "
-                  "AssertionError/KeyError path is reachable; firing timers alone empties every backlog within a computed bound.")
-    level_note = ("Trusted: Coq kernel + vm_compute; the hand-written model's correspondence with messagemanager.py/tokenmanager.py (sampled event scripts, "
+    level_text = ("Theorems (closed under the global context) over Model/C14.v / Model/C14refuse.v for every event list: while the transport refuses nothing, "
+                  "at most one exchange per remote and backlog key iff exchange; submission order = (first transmissions and drops) ++ queue per remote; a held-back "
+                  "message is released exactly in the step that ends the exchange ahead by ACK/RST, dropped (with its request failed) exactly on give-up/transport "
+                  "error, otherwise stays; NON and CON-to-idle-remote go out in the submission step; events of one remote leave the others untouched; no "
+                  "AssertionError/KeyError path is reachable; liveness for every schedule: a held-back message has left its queue after `budget` progress steps of the "
+                  "exchange ahead (retransmission budget as measure), hence eventually under the explicit fairness hypothesis `fair`. With a transport that refuses "
+                  "datagrams synchronously the invariant, one-exchange-per-remote and no-internal-error are REFUTED by machine-checked witnesses that the check "
+                  "replays on the implementation (open findings C14-R1, C14-R2).")
+    level_note = ("Trusted: Coq kernel + vm_compute; the hand-written models' correspondence with messagemanager.py/tokenmanager.py (sampled event scripts, "
                   "compared output-by-output and on the final dict contents); the virtual loop as ideal timer service. Not modelled: incoming requests "
-                  "(dedup, piggy-back), multicast, shutdown, observe; 2^64 token wrap collisions.")
+                  "(dedup, piggy-back), multicast, shutdown, observe; 2^64 token wrap collisions. Theorems for the refusing case are refutations only.")
     rule = ("streams: script = random event scripts (1-4 remotes, one of them hot; CON/NON requests via Context.request with explicit/hinted/default mtype, raw CON/NON "
             "responses via MessageManager.send_message with a recording monitor, ACK/RST/piggy-backed/separate responses aimed at the exchange that is open "
             "according to generator bookkeeping, stale and cross-remote ACKs, pings, timer firings, time advances, transport errors, cancellations; "
@@ -267,15 +283,16 @@ class C14(fw.Property):
             "enough firings to quiesce); template = a queue of 3 CON + 1 NON at one remote and a CON at another with one fault (ACK, RST, piggy-back, transport "
             "error, time-out, cancel, stale ACK) inserted at every position; enum (thorough) = all scripts up to depth 5 over a 7-symbol alphabet. "
             "Non-trivial = at least one held-back message was released or dropped; distinct by full input.")
-    trusted_base = ["hand-written Model/C14.v (validated by the script/template/enum correspondence streams on every run)",
+    trusted_base = ["hand-written Model/C14refuse.v (every stream runs through it) and Model/C14.v (proved equal to it while nothing is refused)",
                     "translator translate/py2v.py + Lib/Py.v for the message-ID counter (Gen/c14_message_id.v, regenerated from messagemanager.py on every run)",
                     "harness/simloop.py virtual loop (ideal timers, FIFO ready queue) and harness/simnet.py fake transport",
                     "labels of fired timers are read from the timer handle (closure defaults of MessageManager._schedule_retransmit.retr)"]
     assumptions = ["tokens do not wrap around 2^64 within one run while requests are outstanding (dict key replacement not modelled)",
-                   "unicast remotes; message manager not shut down; no incoming requests (no piggy-back opportunities, no duplicate store)"]
+                   "unicast remotes; message manager not shut down; no incoming requests (no piggy-back opportunities, no duplicate store)",
+                   "a refusing transport is the fake interface's send() calling MessageManager.dispatch_error(OSError(ENETUNREACH), remote) before returning, as udp6's error_received does from inside sendmsg"]
 
     # ---------------------------------------------------------------- generator
-    def _random_script(self, rng):
+    def _random_script(self, rng, refusal=False):
         nrem = rng.choice([1, 2, 2, 3, 4]); hot = 0
         mid0 = rng.choice([0, 7, rng.randint(0, 65535), 65533, 65534, 65535])
         token0 = rng.choice([0, 0, rng.randint(0, 70000), 2 ** 64 - 3, 255, 65535])
@@ -288,7 +305,11 @@ class C14(fw.Property):
         n = rng.randint(4, 36)
         for _ in range(n):
             x = rng.random()
-            if x < 0.26: sym = ["req", remote(), rng.choice([0, 0, 0, 4, 6]), rng.choice(maxre_pool)]
+            if refusal and rng.random() < 0.12:
+                # the transport starts / stops refusing datagrams to a remote (mostly the busy one; mostly switched off again soon)
+                r = busy() if rng.random() < 0.7 else remote()
+                sym = ["refuse", r, (r not in sim.refusing) if rng.random() < 0.85 else rng.random() < 0.5]
+            elif x < 0.26: sym = ["req", remote(), rng.choice([0, 0, 0, 4, 6]), rng.choice(maxre_pool)]
             elif x < 0.32: sym = ["req", remote(), rng.choice([1, 5]), rng.choice(maxre_pool)]
             elif x < 0.42: sym = ["raw", remote(), rng.choice([0, 0, 1, 4, 5, 6, 7, 8]), rng.randint(1, 300), rng.choice(maxre_pool)]
             elif x < 0.57: sym = ["ack", busy()]
@@ -324,6 +345,20 @@ class C14(fw.Property):
                     events += [["fire"]] * sim.fires_needed
                     yield {"mid0": mid0, "token0": token0, "rand": [], "events": events, "closed": True}
 
+    def _refuse_templates(self):
+        """the transport refuses remote 0 from every position of the queue scenario on, and accepts again 0..3 events later"""
+        base = [["req", 0, 0, 2], ["req", 0, 0, 1], ["req", 1, 0, 1], ["raw", 0, 0, 9, 1], ["req", 0, 1, 1], ["ack", 0], ["fire"], ["rst", 0], ["fire"],
+                ["resp", 0, CON, 500, 77], ["req", 0, 6, 0], ["req", 0, 0, 0], ["ack", 0], ["fire"], ["fire"]]
+        for pos in range(len(base) + 1):
+            for dur in (1, 2, 3, 99):
+                syms = list(base); syms.insert(pos, ["refuse", 0, True])
+                if pos + 1 + dur <= len(syms): syms.insert(pos + 1 + dur, ["refuse", 0, False])
+                sim = Sim(0, 0, []); ids = [0]; events = []
+                for sym in syms:
+                    ev = concretize(sym, sim, ids); sim.apply(ev); events.append(ev)
+                events += [["fire"]] * sim.fires_needed
+                yield {"mid0": 0, "token0": 0, "rand": [], "events": events, "closed": True}
+
     def _enum(self, depth):
         import itertools
         alphabet = [["req", 0, 0, 0], ["req", 1, 0, 1], ["req", 0, 1, 0], ["ack", 0], ["rst", 0], ["fire"], ["err", 0]]
@@ -336,13 +371,31 @@ class C14(fw.Property):
                 yield {"mid0": 65535, "token0": 0, "rand": [], "events": events, "closed": True}
 
     def gen_cases(self, tier, rng, n):
-        templates = list(self._templates())
+        templates = list(self._templates()); rtemplates = list(self._refuse_templates())
         if tier == "quick":
-            rng.shuffle(templates); templates = templates[:n // 4]
+            rng.shuffle(templates); templates = templates[:n // 5]
+            rng.shuffle(rtemplates); rtemplates = rtemplates[:n // 10]
         for t in templates: yield "template", t
-        for _ in range(max(0, n - len(templates))): yield "script", self._random_script(rng)
+        for t in rtemplates: yield "refuse-template", t
+        rest = max(0, n - len(templates) - len(rtemplates))
+        for k in range(rest):
+            if k % 4 == 3: yield "refuse", self._random_script(rng, refusal=True)
+            else: yield "script", self._random_script(rng)
         if tier == "thorough":
             for c in self._enum(5): yield "enum", c
+            for c in self._enum_refuse(4): yield "enum-refuse", c
+
+    def _enum_refuse(self, depth):
+        import itertools
+        alphabet = [["req", 0, 0, 1], ["req", 0, 1, 0], ["ack", 0], ["fire"], ["refuse", 0, True], ["refuse", 0, False], ["req", 1, 0, 0], ["resp", 0, CON, 9, 1]]
+        for L in range(2, depth + 1):
+            for syms in itertools.product(alphabet, repeat=L):
+                if ["refuse", 0, True] not in syms: continue
+                sim = Sim(0, 0, []); ids = [0]; events = []
+                for sym in syms:
+                    ev = concretize(sym, sim, ids); sim.apply(ev); events.append(ev)
+                events += [["refuse", 0, False]] + [["fire"]] * sim.fires_needed
+                yield {"mid0": 0, "token0": 0, "rand": [], "events": events, "closed": True}
 
     # ---------------------------------------------------------------- implementation
     def impl(self, stream, inp):
@@ -353,16 +406,17 @@ class C14(fw.Property):
         evs = []
         for ev in inp["events"]:
             k = ev[0]
-            if k == "req": evs.append("Request %s %s %s %s" % tuple(gz(x) for x in ev[1:5]))
-            elif k == "raw": evs.append("RawSend %s %s %s %s %s" % tuple(gz(x) for x in ev[1:6]))
-            elif k == "empty": evs.append("RecvEmpty %s %s %s" % tuple(gz(x) for x in ev[1:4]))
-            elif k == "resp": evs.append("RecvResp %s %s %s %s" % tuple(gz(x) for x in ev[1:5]))
-            elif k == "err": evs.append("TransportError %s" % gz(ev[1]))
-            elif k == "fire": evs.append("Fire")
-            elif k == "adv": evs.append("Advance %s" % gz(ev[1]))
-            elif k == "cancel": evs.append("Cancel %s" % gz(ev[1]))
+            if k == "req": evs.append("Ev (Request %s %s %s %s)" % tuple(gz(x) for x in ev[1:5]))
+            elif k == "raw": evs.append("Ev (RawSend %s %s %s %s %s)" % tuple(gz(x) for x in ev[1:6]))
+            elif k == "empty": evs.append("Ev (RecvEmpty %s %s %s)" % tuple(gz(x) for x in ev[1:4]))
+            elif k == "resp": evs.append("Ev (RecvResp %s %s %s %s)" % tuple(gz(x) for x in ev[1:5]))
+            elif k == "err": evs.append("Ev (TransportError %s)" % gz(ev[1]))
+            elif k == "fire": evs.append("Ev Fire")
+            elif k == "adv": evs.append("Ev (Advance %s)" % gz(ev[1]))
+            elif k == "cancel": evs.append("Ev (Cancel %s)" % gz(ev[1]))
+            elif k == "refuse": evs.append("Refuse %s %s" % (gz(ev[1]), fw.gbool(ev[2])))
             else: raise ValueError(k)
-        return "run_view %s %s %s %s" % (gz(inp.get("mid0", 0)), gz(inp.get("token0", 0)), glist([gz(x) for x in inp.get("rand", [])]), glist(evs))
+        return "rrun_view %s %s %s %s" % (gz(inp.get("mid0", 0)), gz(inp.get("token0", 0)), glist([gz(x) for x in inp.get("rand", [])]), glist(evs))
 
     def decode(self, stream, inp, p):
         steps_p, fin = p
@@ -393,28 +447,37 @@ class C14(fw.Property):
         open_ = {}           # r -> (mid, tag) of the confirmable message awaiting its acknowledgement
         waitq = {}           # r -> tags submitted but held back, oldest first
         live = {}            # q -> remote, requests not completed yet
+        refusing = set()     # remotes for which the transport currently refuses every datagram (reported as an error for the endpoint)
+        zombies = {}         # (r, mid) -> tag: exchanges that ended because their retransmission was refused
         for i, (ev, outs) in enumerate(zip(inp["events"], res["steps"])):
             k = ev[0]; where = "step %d %r" % (i, ev)
-            acked = None; failed = None; ev_remote = None; rst_tag = None
+            if k == "refuse":
+                (refusing.add if ev[2] else refusing.discard)(ev[1]); continue
+            acked = None; failed = None; ev_remote = None; rst_tag = None; refused_release = False
             if k in ("empty", "resp"):
                 ev_remote = ev[1]
+                if ev[2] in (ACK, RST) and (ev[1], ev[3]) in zombies and any(o[0] == "crash" for o in outs):
+                    return ("C14:zombie-exchange:ack-crash", "%s: %s escaped while acknowledging %s, whose exchange had ended when its retransmission was refused but was put back" % (where, [o[1] for o in outs if o[0] == "crash"][0], zombies[(ev[1], ev[3])]))
                 if ev[2] in (ACK, RST) and ev[1] in open_ and open_[ev[1]][0] == ev[3]:
                     acked = ev[1]
                     if ev[2] == RST: rst_tag = open_[ev[1]][1]
+                    if acked in refusing and waitq.get(acked): failed = acked; refused_release = True    # the release is refused: error for the endpoint
+                if ev[2] == CON and ev[1] in refusing: failed = ev[1]       # our ACK / RST reply is refused
             elif k == "err": failed = ev_remote = ev[1]
             elif k == "fire":
                 lab = [o for o in outs if o[0] == "fired"]
                 if any(o[0] == "fired-unknown" for o in outs): return ("C14:unlabelled-timer", "%s: a timer that is no retransmission timer fired" % where)
                 if lab:
                     _, r, mid = lab[0]; ev_remote = r
+                    if (r, mid) in zombies:
+                        return ("C14:zombie-exchange:timer-fired", "%s: the retransmission timer of %s (%s,%s) fired again although that exchange ended (requests failed, queue dropped) when its retransmission was refused" % (where, zombies[(r, mid)], r, mid))
                     if r not in open_ or open_[r][0] != mid:
                         return ("C14:timer-of-closed-exchange", "%s: retransmission timer of (%s,%s) fired although that exchange is over" % (where, r, mid))
-                    if not any(o[0] == "tx" and o[7] and o[1] == r and o[4] == mid for o in outs): failed = r
+                    if not any(o[0] == "tx" and o[7] and o[1] == r and o[4] == mid for o in outs):
+                        failed = r
+                        if r in refusing: new_zombie = ((r, mid), open_[r][1])
             elif k in ("req", "raw"): ev_remote = ev[2]
             elif k == "cancel": ev_remote = live.get(ev[1])
-            # ---- effects of the event on the exchange that was open
-            if acked is not None: del open_[acked]
-            if failed is not None: open_.pop(failed, None)
             expect_now = None
             if k in ("req", "raw"):
                 tag = sub_tag(k, ev[1]); r = ev[2]; con = resolved(ev[3]) == CON
@@ -422,10 +485,21 @@ class C14(fw.Property):
                 subs[tag] = dict(kind=k, n=ev[1], r=r, con=con, status="waiting")
                 if k == "req": live[ev[1]] = r
                 if con and (r in open_ or waitq.get(r)): waitq.setdefault(r, []).append(tag)
+                elif r in refusing:        # handed to the transport at once and refused: error for the endpoint, the message counts as held back
+                    waitq.setdefault(r, []).append(tag); failed = r
                 else: expect_now = tag
+            # ---- effects of the event on the exchange that was open
+            if acked is not None: del open_[acked]
+            if failed is not None:
+                open_.pop(failed, None)
+                for key in [key for key in zombies if key[0] == failed]: del zombies[key]
+            if k == "fire" and failed is not None and failed in refusing and lab: zombies[(lab[0][1], lab[0][2])] = new_zombie[1]
             released = []
             for o in outs:
-                if o[0] == "crash": return ("C14:crash:" + str(o[1]), "%s: %s left the message layer" % (where, o[1]))
+                if o[0] == "crash":
+                    if refused_release and o[1] == "KeyError":
+                        return ("C14:refused-release:KeyError", "%s: the transport refused the release of held-back %s; KeyError escaped _continue_backlog / dispatch_message" % (where, waitq[acked][0]))
+                    return ("C14:crash:" + str(o[1]), "%s: %s left the message layer" % (where, o[1]))
                 if o[0] == "tx":
                     _, r, mt, code, mid, tok, tag, retr = o
                     if tag not in subs: continue        # empty ACK / RST replies
@@ -461,7 +535,7 @@ class C14(fw.Property):
                 sb = subs[expect_now]
                 return ("C14:non-delayed" if not sb["con"] else "C14:con-to-idle-remote-delayed",
                         "%s: %s was not transmitted in the step it was submitted although nothing is outstanding at %s" % (where, expect_now, sb["r"]))
-            if acked is not None and not released and waitq.get(acked):
+            if acked is not None and failed != acked and not released and waitq.get(acked):
                 return ("C14:not-released-on-ack", "%s: exchange at %s ended but held-back %s was not transmitted" % (where, acked, waitq[acked][0]))
             if failed is not None:
                 failed_qs = {o[1] for o in outs if o[0] == "fail"}
@@ -479,6 +553,8 @@ class C14(fw.Property):
         if len(set(ex_remotes)) != len(ex_remotes):
             return ("C14:two-exchanges-one-remote", "final _active_exchanges %r" % (res["final"]["exchanges"],))
         if set(ex_remotes) != set(r for r, _ in res["final"]["backlogs"]):
+            if any([r, mid] in res["final"]["exchanges"] for (r, mid) in zombies):
+                return ("C14:zombie-exchange:final-state", "exchange %r is still active without backlog entry: it ended when its retransmission was refused but was put back" % (sorted(zombies),))
             return ("C14:backlog-key-mismatch", "final exchanges %r but backlog entries %r" % (res["final"]["exchanges"], res["final"]["backlogs"]))
         if not ex_remotes:       # nothing outstanding any more: whatever still waits will never be released
             for tag, sb in subs.items():
